@@ -715,6 +715,13 @@ func replay(t *testing.T, c *Check, path string) {
 			return
 		}
 		for _, v := range out.Violations {
+			if rf.Tries > 1 && v.Prop == rf.Expect.Prop {
+				// the plan is known not to fail the same way every time (the program
+				// under test makes choices the simulator does not own): another
+				// violation of the same property is the same finding showing differently
+				fmt.Printf("REPLAY-REPRODUCED property=%s invariant=%s site=%s attempt=%d (recorded as %s)\n  %s\n", v.Prop, v.Invariant, v.Site, i+1, rf.Expect.Class(), v.Detail)
+				return
+			}
 			fmt.Printf("REPLAY-OTHER %s %s\n", v.Class(), v.Detail)
 		}
 	}
